@@ -328,10 +328,12 @@ storage_properties_copy(struct StorageProperties* dst,
     CHECK(copy_string(&dst->access_key_id, &src->access_key_id));
     CHECK(copy_string(&dst->secret_access_key, &src->secret_access_key));
 
-    // 3. Copy the dimensions
-    if (src->acquisition_dimensions.data) {
+    // 3. Copy the dimensions. Whatever `dst` held before is released, also
+    //    when `src` has no dimensions.
+    if (dst->acquisition_dimensions.data) {
         storage_properties_dimensions_destroy(dst);
-
+    }
+    if (src->acquisition_dimensions.data) {
         CHECK(storage_properties_dimensions_init(
           dst, src->acquisition_dimensions.size));
         for (size_t i = 0; i < src->acquisition_dimensions.size; ++i) {
